@@ -85,6 +85,23 @@ func c20Body(role string, variant string) func() {
 			h.ServeIncoming(rawFrom(peer, self, "A", 1, "98=0", "108=1"))
 			vsched.Settle()
 		})
+		if variant == "quick-relogon" {
+			// Logon, Logout and the next Logon within the timers' first polling step: the second Logon
+			// stops the first one's timers while their tasks have done nothing but start waiting
+			vsched.Deterministic(func() {})
+			time.Sleep(10 * time.Millisecond)
+			h.ServeIncoming(rawFrom(peer, self, "5", 2))
+			time.Sleep(10 * time.Millisecond)
+			h.ServeIncoming(rawFrom(peer, self, "A", 3, "98=0", "108=1"))
+			time.Sleep(2500 * time.Millisecond)
+			h.ServeIncoming(rawFrom(peer, self, "0", 4, "112=1"))
+			time.Sleep(1500 * time.Millisecond)
+			vsched.Settle()
+			h.Stop()
+			atomic.StoreInt64(&c20Drained, int64(<-drained))
+			vsched.Settle()
+			return
+		}
 		done := make(chan struct{}, 8)
 		// two application senders
 		for g := 0; g < 2; g++ {
@@ -323,7 +340,7 @@ func runC20(R *vlib.Out) {
 	}
 	var ps []map[string]any
 	for _, role := range []string{"acc", "ini"} {
-		for _, v := range []string{"stop", "peer-logout", "silent", "relogon"} {
+		for _, v := range []string{"stop", "peer-logout", "silent", "relogon", "quick-relogon"} {
 			ps = append(ps, map[string]any{"role": role, "variant": v})
 		}
 	}
